@@ -225,6 +225,19 @@ fn run(ctx: &Ctx) {
             _ => format!("&lt;{}&#x20;", m),
         }))
     }, check);
+    // offset sweep: every special / reference form after a run of 0..=130 plain bytes and before a
+    // run of 0..=40 (block-wise scanners, copy offsets), with two kinds of plain runs
+    const SPECIALS: &[&str] = &["<", ">", "&", "'", "\"", "&amp;", "&lt;&gt;", "&#65;", "&#x10FFFF;", "&unknown;", "&#0;", "&", "&;", "\u{e9}<", "\r\n&", "]]>", "&apos;&quot;"];
+    let (pmax, qmax) = ctx.tier.pick((130u64, 40u64), (300, 80));
+    ctx.run_indexed("offset-sweep", (pmax + 1) * (qmax + 1) * SPECIALS.len() as u64 * 2, |i| {
+        let fill = if i % 2 == 0 { "a" } else { "\u{e9}" };
+        let i = i / 2;
+        let sp = SPECIALS[(i % SPECIALS.len() as u64) as usize];
+        let i = i / SPECIALS.len() as u64;
+        let (p, q) = ((i / (qmax + 1)) as usize, (i % (qmax + 1)) as usize);
+        // a second special after the tail now and then
+        Some(Case::Str(format!("{}{}{}{}", fill.repeat(p), sp, "b".repeat(q), if (p + q) % 5 == 0 { sp } else { "" })))
+    }, check);
     let piece = prop_oneof![
         4 => prop::sample::select(vec!["<", ">", "&", "'", "\"", "#", "x", ";", "&amp;", "&lt;", "&#", "&#x", "]]>", "--", " ", "\t", "\n", "\r", "0", "41", "\u{e9}", "\u{20ac}", "\u{1F600}", "\u{0}", "\u{FFFD}", "\u{FEFF}"]).prop_map(|s| s.to_string()),
         2 => any::<char>().prop_map(|c| c.to_string()),
